@@ -349,6 +349,8 @@ def _any(I, a, k):
 def _str(I, a, k):
     if not _anysym(a):
         return NotImplemented
+    if len(a) == 1 and getattr(a[0], "_pyvc_ok", False) and hasattr(a[0], "key"):
+        return a[0].key
     return SymStr(["<sym>"])
 
 
